@@ -231,6 +231,51 @@ theorem table_mirrors_tracker (cfg : Cfg) (ops : List COp) (ip : Ip) (i : Nat) :
         s.bitmap.testBit i = true :=
   (CInv_run ops (CInv_init cfg)).tracker_bit ip i
 
+/-! ### a put whose synchronous publish fails (failing batch syscall: environment, not a cache history) -/
+
+/-- **A failed publish breaks the mirror** (code as it is: the entry is stored before the callback runs and
+stays cached when the callback fails): after `putFail k {1.2.3.4…}` the cache lists the address, the table
+does not. The headline above therefore assumes that the batch syscalls of cache operations succeed. -/
+theorem failed_put_sync_breaks_mirror :
+    ¬ (∀ (cfg : Cfg) (ops : List FOp) (ip : Ip) (i : Nat),
+        (kernelVal (crunF (CState.init cfg) ops).tk.K ip).testBit i = true ↔
+          ∃ key e, alLookup key (crunF (CState.init cfg) ops).cache = some e ∧ ip ∈ ansIps e.ans ∧
+            e.bitmap.testBit i = true) := by
+  intro h
+  have := h ⟨false, 0, 0⟩ [.putFail "k" "k." 1 100 none 1 [.a4 1]] (mapped4 1) 0
+  have hk : (kernelVal (crunF (CState.init ⟨false, 0, 0⟩) [.putFail "k" "k." 1 100 none 1 [.a4 1]]).tk.K
+      (mapped4 1)).testBit 0 = false := by decide
+  have hc : ∃ key e, alLookup key (crunF (CState.init ⟨false, 0, 0⟩)
+      [.putFail "k" "k." 1 100 none 1 [.a4 1]]).cache = some e ∧ mapped4 1 ∈ ansIps e.ans ∧
+        e.bitmap.testBit 0 = true := ⟨"k", ⟨1, 1, [.a4 1], 100 * sec, 100 * sec, 0, 0⟩, by decide, by decide, by decide⟩
+  rw [this.mpr hc] at hk
+  cases hk
+
+/-- **… and the refresh worker repairs it.** After any history of cache operations that leaves the refresh
+queue empty, a put whose publish failed, the next lookup of that key (which queues a refresh because the
+entry was never synced) and the worker's run restore the headline. -/
+theorem refresh_after_failed_put_repairs (cfg : Cfg) (ops : List COp) (key fqdn : String) (qtype ttl : Nat)
+    (fixedTtl : Option Nat) (bitmap : Bitmap) (ans : List Ans)
+    (hq : (crun (CState.init cfg) ops).pending = []) (ip : Ip) (i : Nat) :
+    let σ := cstep (cstep (cstepF (crun (CState.init cfg) ops)
+      (.putFail key fqdn qtype ttl fixedTtl bitmap ans)) (.look (effKey key fqdn qtype) false true)) .work
+    (kernelVal σ.tk.K ip).testBit i = true ↔
+      ∃ k e, alLookup k σ.cache = some e ∧ ip ∈ ansIps e.ans ∧ e.bitmap.testBit i = true := by
+  intro σ
+  have h0 := CInv_run ops (CInv_init cfg)
+  have hσ : CInv σ := by
+    show CInv (cstep (cstep (cstepF _ _) _) .work)
+    unfold cstepF
+    by_cases hk : effKey key fqdn qtype = ""
+    · simp only [hk, if_true]
+      exact CInv_step (CInv_step h0 _) _
+    · simp only [hk, if_false]
+      rw [failed_put_then_refresh_eq_store _ hq]
+      exact CInv_store h0 _ hk _
+  exact hσ.cache_bit ip i
+
+example : (crun (CState.init ⟨false, 0, 0⟩) [.put "a" "a." 1 100 none 1 [.a4 1]]).pending = [] := by decide
+
 /-- **Revert witness.** With the worker as it was before the fix (`cstepUnguarded`: a queued refresh is
 applied even when its entry was replaced or removed meanwhile) the headline is false: insert, wait 60 s,
 look up (queues a refresh), remove, worker runs — the table keeps an address no cached entry lists.
